@@ -261,6 +261,13 @@ def sysRun (valid : Crontab → Bool) (cfg : Nat → List Binding) (ops : List S
 def tickTasks (ord : Links → Links) (hooks : List Nat) (s : Sys) (c : Crontab) : List Task :=
   ((firing s.sm).filter (fun c' => c' == c)).flatMap (fun c' => scheduleTasks ord hooks s.links c')
 
+/-- All tasks of one wall-clock instant at which the schedule `σ` is due, `sched` being the cron parser's
+reading of a crontab string (many strings spell one schedule): every live cron registration whose spec
+parses to `σ` fires and sends its own string. -/
+def wallTickTasks (sched : Crontab → Nat) (ord : Links → Links) (hooks : List Nat) (s : Sys) (σ : Nat) :
+    List Task :=
+  ((firing s.sm).filter (fun c' => sched c' == σ)).flatMap (fun c' => scheduleTasks ord hooks s.links c')
+
 /-! ## Spec of the tick: one task per enabled binding with that crontab -/
 namespace Spec
 
